@@ -18,6 +18,16 @@ type Term struct {
 	lo   int
 	id   int
 	def  bool // defined in solver
+	konst bool // op is const/true/false
+	// store chains with constant indices: cdepth = number of consecutive const-index stores ending here;
+	// skips[k] jumps over the last 16^(k+1) of them when the wanted index is outside their index range
+	cdepth int
+	skips  []skipInfo
+}
+
+type skipInfo struct {
+	to     *Term
+	lo, hi uint64
 }
 
 type tkey struct {
@@ -56,6 +66,7 @@ func mk(op string, w int, val uint64, name string, hi, lo int, args ...*Term) *T
 		return t
 	}
 	t := &Term{op: op, w: w, args: args, val: val, name: name, hi: hi, lo: lo, id: len(termList)}
+	t.konst = op == "const" || op == "true" || op == "false"
 	termTab[k] = t
 	termList = append(termList, t)
 	return t
@@ -79,7 +90,7 @@ func Var(name string, w int) *Term { return mk("var", w, 0, name, 0, 0) }
 func ArrVar(name string) *Term      { return mk("avar", -1, 0, name, 0, 0) }
 func ArrConst(v uint64) *Term       { return mk("aconst", -1, v, "", 0, 0) }
 
-func (t *Term) IsConst() bool { return t.op == "const" || t.op == "true" || t.op == "false" }
+func (t *Term) IsConst() bool { return t.konst }
 func (t *Term) IsTrue() bool  { return t.op == "true" }
 func (t *Term) IsFalse() bool { return t.op == "false" }
 
@@ -353,8 +364,17 @@ func select1(arr, idx *Term) *Term {
 			if si == idx {
 				return arr.args[2]
 			}
-			if si.IsConst() && idx.IsConst() {
-				arr = arr.args[0]
+			if si.konst && idx.konst {
+				jumped := false
+				for k := len(arr.skips) - 1; k >= 0; k-- {
+					if sk := &arr.skips[k]; idx.val < sk.lo || idx.val > sk.hi {
+						arr, jumped = sk.to, true
+						break
+					}
+				}
+				if !jumped {
+					arr = arr.args[0]
+				}
 				continue
 			}
 			// try offset-difference: (base + c1) vs (base + c2)
@@ -388,7 +408,59 @@ func Store(arr, idx, v *Term) *Term {
 	if arr.op == "store" && arr.args[1] == idx {
 		arr = arr.args[0]
 	}
-	return mk("store", -1, 0, "", 0, 0, arr, idx, v)
+	t := mk("store", -1, 0, "", 0, 0, arr, idx, v)
+	if t.cdepth == 0 && idx.konst {
+		pd := 0
+		if arr.op == "store" && arr.args[1].konst {
+			pd = arr.cdepth
+		}
+		t.cdepth = pd + 1
+		// level k block size 16^(k+1); built bottom-up from the level below
+		if t.cdepth%16 == 0 {
+			lo, hi := idx.val, idx.val
+			cur := t
+			for i := 0; i < 16; i++ {
+				v := cur.args[1].val
+				if v < lo {
+					lo = v
+				}
+				if v > hi {
+					hi = v
+				}
+				cur = cur.args[0]
+			}
+			t.skips = append(t.skips, skipInfo{cur, lo, hi})
+			size := 16
+			for lvl := 1; lvl < 4; lvl++ {
+				size *= 16
+				if t.cdepth%size != 0 {
+					break
+				}
+				lo, hi := t.skips[lvl-1].lo, t.skips[lvl-1].hi
+				cur := t
+				ok := true
+				for i := 0; i < 16; i++ {
+					if len(cur.skips) < lvl {
+						ok = false
+						break
+					}
+					sk := cur.skips[lvl-1]
+					if sk.lo < lo {
+						lo = sk.lo
+					}
+					if sk.hi > hi {
+						hi = sk.hi
+					}
+					cur = sk.to
+				}
+				if !ok {
+					break
+				}
+				t.skips = append(t.skips, skipInfo{cur, lo, hi})
+			}
+		}
+	}
+	return t
 }
 
 // UF application (for CRC abstraction etc.)
